@@ -83,7 +83,8 @@ func NewExchangeJSightSchema[T bytes.ByteKeeper](
 		return nil, kit.NewJSchemaError(es.JSchema.File, errs.ErrEmptySchema.F())
 	}
 
-	if astDepthExceeds(&es.JSchema.ASTNode, maxSchemaDepth) {
+	if astDepthExceeds(&es.JSchema.ASTNode, maxSchemaDepth) ||
+		depthWithInheritedProperties(&es.JSchema.ASTNode, coreUserTypes, map[string]struct{}{}) > maxSchemaDepth {
 		return nil, errors.New(jerr.SchemaIsTooDeep)
 	}
 
@@ -119,6 +120,47 @@ func astDepthExceeds(n *schema.ASTNode, limit int) bool {
 		}
 	}
 	return false
+}
+
+// depthWithInheritedProperties returns the nesting of the schema as it is written
+// to the catalog: an object with an allOf rule gets the properties of the named
+// types, with all that is below them - which can be an object with an allOf rule
+// again. Every schema of such a chain may be below the limit while the
+// assembled content is not.
+func depthWithInheritedProperties(n *schema.ASTNode, userTypes *UserSchemas, onPath map[string]struct{}) int {
+	below := 0
+	for i := range n.Children {
+		if d := depthWithInheritedProperties(&n.Children[i], userTypes, onPath); d > below {
+			below = d
+		}
+	}
+	if n.Rules != nil && userTypes != nil {
+		if r, ok := n.Rules.Get("allOf"); ok {
+			names := []string{r.Value}
+			for _, i := range r.Items {
+				names = append(names, i.Value)
+			}
+			for _, name := range names {
+				if _, ok := onPath[name]; ok {
+					continue
+				}
+				js, ok := userTypes.GetValue(name).(*jschema.JSchema)
+				if !ok || js == nil {
+					continue
+				}
+				if _, err := js.UsedUserTypes(); err != nil {
+					continue
+				}
+				onPath[name] = struct{}{}
+				// The root of the type is this object itself.
+				if d := depthWithInheritedProperties(&js.ASTNode, userTypes, onPath) - 1; d > below {
+					below = d
+				}
+				delete(onPath, name)
+			}
+		}
+	}
+	return below + 1
 }
 
 func (e *ExchangeJSightSchema) Notation() notation.SchemaNotation {
